@@ -32,7 +32,8 @@ def time_split_mux(time_mapper,
                     new_timestamp = time_mapper(i.item)
                     start_timestamp = i.store.get_state(state_start, i.key)
                     last_timestamp = i.store.get_state(state_last, i.key)
-                    if start_timestamp is rs.state.markers.STATE_NOTSET:
+                    first_item = start_timestamp is rs.state.markers.STATE_NOTSET
+                    if first_item:
                         start_timestamp = new_timestamp
                         last_timestamp = new_timestamp
                         i.store.set_state(state_start, i.key, start_timestamp)
@@ -49,10 +50,13 @@ def time_split_mux(time_mapper,
                         i.store.set_state(state_last, i.key, new_timestamp)
                         if include_closing_item:
                             observer.on_next(i._replace(key=(i.key[0], i.key)))
-                        observer.on_next(rs.OnCompletedMux((i.key[0], i.key), i.store))
-                        observer.on_next(rs.OnCreateMux((i.key[0], i.key), i.store))
-                        if include_closing_item:
+                            observer.on_next(rs.OnCompletedMux((i.key[0], i.key), i.store))
+                            observer.on_next(rs.OnCreateMux((i.key[0], i.key), i.store))
                             return
+                        elif not first_item:
+                            # the window opened for this very item is not closed empty
+                            observer.on_next(rs.OnCompletedMux((i.key[0], i.key), i.store))
+                            observer.on_next(rs.OnCreateMux((i.key[0], i.key), i.store))
                     else:
                         i.store.set_state(state_last, i.key, new_timestamp)
 
